@@ -16,7 +16,7 @@ META = dict(
 
 def plan(ctx, tier, seed):
     hs = []
-    combos = [(0, 4, 0), (0, 5, 0), (1, 16, 1)] if tier == "quick" else [(w, n, v) for w in (0, 1) for n in (4, 5, 16) for v in (0, 1)]
+    combos = [(0, 4, 0), (0, 3, 0), (1, 16, 1)] if tier == "quick" else [(w, n, v) for w in (0, 1) for n in (3, 4, 5, 16) for v in (0, 1)]
     for wl, ndds, withv in combos:
         rngs = [(0, 3), (4, 7), (8, 11), (12, 40)] if not withv else [(0, 1), (2, 3), (4, 5), (6, 7), (8, 9), (10, 12), (13, 40)]
         for lo, hi in rngs:
